@@ -64,6 +64,7 @@ def impl_text(sel, n_in, n_out, uid):
             srcs = [r.choice(pool) for _ in range(k)]
         gates.append((f'z{uid}x{j}', kind, srcs))
     outs = [g[0] for g in gates[-n_out:]] if n_out > 0 else []
+    if r.random() < 0.5: r.shuffle(outs)      # port order independent of the evaluation order: an earlier port may read a later one
     text = f"input({','.join(ins)}) output({','.join(outs)}) " + ' '.join(f"{g}={k}({','.join(s)})" for g, k, s in gates)
     return text, len(unused)
 
